@@ -90,6 +90,11 @@ func runCase(c *core.Case) {
 	for _, a := range accs {
 		fx = append(fx, fixture.Account{Login: a.login, Name: "N-" + a.login, Password: a.pw, Access: a.bits})
 	}
+	// accounts whose stored hash is unusable: nobody may log in to them with any password
+	brokenKind := core.Pick(r, []string{"", "", "", "emptyhash", "garbagehash", "longpw-via-protocol"})
+	if brokenKind == "emptyhash" || brokenKind == "garbagehash" {
+		fx = append(fx, fixture.Account{Login: "broken", Name: "Broken", Access: rc.AllBits(), RawHash: map[string]string{"emptyhash": "-", "garbagehash": "not-a-bcrypt-hash"}[brokenKind]})
+	}
 	srv, err := fixture.New(fixture.Options{Accounts: fx, Agreement: "AGREEMENT-TEXT", Board: "BOARD-TEXT\r",
 		NewsYAML: "Categories:\n  cat:\n    Type: [0, 3]\n    Name: cat\n    Articles: {}\n    SubCats: {}\n",
 		Files: func(root string) { fixture.WriteFile(root+"/victim.txt", "victim-data") }})
@@ -107,6 +112,13 @@ func runCase(c *core.Case) {
 	if err != nil {
 		c.Unsure("observer login: %v", err)
 		return
+	}
+	if brokenKind == "longpw-via-protocol" {
+		// an administrator creates an account whose password exceeds bcrypt's 72-byte limit
+		long := bytes.Repeat([]byte("L"), 73+r.Intn(60))
+		if rep, ok := obsA.Call(350, rc.F(105, rc.Obfuscate([]byte("broken"))), rc.FS(102, "Broken"), rc.F(106, rc.Obfuscate(long)), rc.F(110, rc.Bitmap(2, 9, 10))); !ok || rep.Err != 0 {
+			brokenKind = ""
+		}
 	}
 	if !srv.Quiesce(refclient.Watchdog) {
 		c.Unsure("no quiescence after observer logins")
@@ -139,6 +151,9 @@ func runCase(c *core.Case) {
 	target := accs[2+r.Intn(len(accs)-2)] // never the observers' accounts
 	if r.Chance(1, 6) {
 		target = accs[0]
+	}
+	if brokenKind != "" && r.Chance(2, 3) {
+		target = account{"broken", "\x00unknowable", nil}
 	}
 	credClass := core.Pick(r, []string{"exact", "exact", "exact", "bitflip", "prefix", "extension", "emptypw", "otherpw", "unknownlogin", "emptylogin", "emptylogin-pw", "caselogin", "nofields", "truncated-frame"})
 	login, pw := []byte(target.login), []byte(target.pw)
@@ -192,8 +207,36 @@ func runCase(c *core.Case) {
 	if !hsValid || credClass == "truncated-frame" {
 		expectIn = false
 	}
+	if target.login == "broken" && credClass == "exact" {
+		credClass = "emptypw" // the account has no usable password: every attempt must fail
+		pw = nil
+	}
 
-	peer := refclient.Connect(srv, fmt.Sprintf("10.%d.%d.%d:%d", 1+r.Intn(8), r.Intn(256), 1+r.Intn(250), 1024+r.Intn(60000)))
+	// ban classes: the peer's address may be banned (permanently / temporarily, not yet expired) or carry an
+	// expired temporary ban (which must not matter)
+	peerIP := fmt.Sprintf("10.%d.%d.%d", 1+r.Intn(8), r.Intn(256), 1+r.Intn(250))
+	banClass := core.Pick(r, []string{"", "", "", "", "", "", "perm", "temp", "expired", "other-address"})
+	banned := false
+	switch banClass {
+	case "perm":
+		srv.S.BanList.Add(peerIP, nil)
+		banned = true
+	case "temp":
+		t := time.Now().Add(time.Duration(1+r.Intn(29)) * time.Minute)
+		srv.S.BanList.Add(peerIP, &t)
+		banned = true
+	case "expired":
+		t := time.Now().Add(-time.Duration(1+r.Intn(600)) * time.Minute)
+		srv.S.BanList.Add(peerIP, &t)
+	case "other-address":
+		srv.S.BanList.Add(peerIP+"0", nil)
+		srv.S.BanList.Add("1"+peerIP, nil)
+	}
+	if banned {
+		expectIn = false
+	}
+
+	peer := refclient.Connect(srv, fmt.Sprintf("%s:%d", peerIP, 1024+r.Intn(60000)))
 	firstType := 107
 	if r.Chance(1, 8) {
 		firstType = core.Pick(r, []int{105, 103, 300, 500, 0})
@@ -223,7 +266,7 @@ func runCase(c *core.Case) {
 			tail = append(tail, appended(appKind, peer)...)
 		}
 	}
-	c.Describe(fmt.Sprintf("%s/%s/%s/in=%v", hsClass, credClass, appKind, expectIn),
+	c.Describe(fmt.Sprintf("%s/%s/%s/ban=%s/%s/in=%v", hsClass, credClass, appKind, banClass, brokenKind, expectIn),
 		map[string]any{"handshake": fmt.Sprintf("%x", hs), "first_transaction": t1.String(), "credential_class": credClass, "appended": appKind, "guest_account": hasGuest, "expect_logged_in": expectIn})
 
 	before := fixture.Snapshot(srv.Dir)
@@ -315,6 +358,10 @@ func runCase(c *core.Case) {
 		c.Fail("C04/served-without-handshake", "peer with invalid handshake %x received %d transaction(s): %v", hs, len(fl), fl[0])
 	} else if len(fl) > 1 {
 		c.Fail("C04/unauth-extra-output", "unauthenticated peer (%s/%s login=%q sent password %x, account password %x) received %d transactions, allowed at most one error reply: %v", hsClass, credClass, effLogin, pw, target.pw, len(fl), fl)
+	} else if len(fl) == 1 && banned && hsValid {
+		if f := fl[0]; !(f.IsReply == 0 && f.Type == 104) {
+			c.Fail("C04/banned-peer-output", "peer from a banned address (%s) received %v, allowed is one ban notice", banClass, f)
+		}
 	} else if len(fl) == 1 {
 		f := fl[0]
 		if !(f.IsReply == 1 && f.Err != 0) {
